@@ -6,8 +6,10 @@ import (
 	"errors"
 	"fmt"
 	"io"
+	"os"
 	"runtime"
 	"strings"
+	"syscall"
 	"testing"
 	"testing/synctest"
 	"time"
@@ -32,10 +34,15 @@ func TestMain(m *testing.M) {
 var errBoom = errors.New("boom")
 
 type wbeh struct {
-	short  int  // bytes withheld (0 = full write)
-	fail   bool // return an error as well
-	silent bool // a short write reported without an error (what io.Writer forbids and sloppy writers do all the same)
+	short  int   // bytes withheld (0 = full write)
+	fail   bool  // return an error as well
+	silent bool  // a short write reported without an error (what io.Writer forbids and sloppy writers do all the same)
+	err    error // the error of a failing write (nil: errBoom)
 }
+
+// errors a destination reports: some of them invite a retry (EINTR, EAGAIN, a deadline), which is the caller's decision,
+// not the counting wrapper's
+var failErrors = []error{nil, nil, syscall.EINTR, syscall.EAGAIN, &os.PathError{Op: "write", Path: "/dev/stdout", Err: syscall.EINTR}, os.ErrDeadlineExceeded, io.EOF, io.ErrClosedPipe, fmt.Errorf("flush: %w", syscall.ENOSPC)}
 
 type wcall struct {
 	size      int
@@ -71,6 +78,9 @@ func (s script) render() string {
 		}
 		if c.beh.fail {
 			p += " fails"
+			if c.beh.err != nil {
+				p += " (" + c.beh.err.Error() + ")"
+			}
 		}
 		if c.consume {
 			p += " [consumer receiving]"
@@ -102,6 +112,9 @@ func (w *plainWriter) next(n int) (int, error) {
 	var err error
 	if b.fail {
 		err = errBoom
+		if b.err != nil {
+			err = b.err
+		}
 	} else if k < n && !b.silent {
 		err = io.ErrShortWrite
 	}
@@ -219,6 +232,9 @@ func runScript(s script) (string, outcome) {
 		var wantErr error
 		if c.beh.fail {
 			wantErr = errBoom
+			if c.beh.err != nil {
+				wantErr = c.beh.err
+			}
 		} else if wantN < c.size && !c.beh.silent {
 			wantErr = io.ErrShortWrite
 		}
@@ -424,6 +440,7 @@ func genScript(t *rapid.T) script {
 		case 1:
 			c.beh.fail = true
 			c.beh.short = rapid.SampledFrom([]int{0, 1, 3, 1 << 20}).Draw(t, "failAfter")
+			c.beh.err = rapid.SampledFrom(failErrors).Draw(t, "error")
 		}
 		if every > 0 {
 			c.consume = i%every == 0
